@@ -437,3 +437,50 @@ Definition round_archive_names (wal : wdir) (keep : N) : list bytes :=
     end) wal.
 Definition name_reused (nm : bytes) (wal : wdir) (keep : N) : bool :=
   existsb (bytes_eqb nm) (round_archive_names wal keep).
+
+(** ** From the bytes of a log file to its lines, and which lines are entries
+
+    Both readers of a log file — [WalArchive::from_wal_file] and [WalRecovery::replay_log_file] — iterate
+    [BufReader::lines()]: every piece that ends in "\n" is a line (one "\r" before the "\n" is dropped
+    with it), and what follows the last "\n" is a line too unless it is empty.  In particular a last
+    line WITHOUT a trailing newline is a line like any other: the WAL writer emits the JSON text and the
+    "\n" as two writes, so a crash between them leaves exactly that — a complete entry that replay
+    accepts.  A line is an entry iff it deserializes as a WalEntry ([LEntry]); surrounding whitespace
+    (including a "\r" kept on an unterminated last line) does not matter to serde_json. *)
+
+(** drop one trailing "\r" *)
+Definition strip_cr (p : bytes) : bytes :=
+  match rev_append p [] with      (* the linear-time reverse: lines can be long *)
+  | c :: t => if c =? 13 then rev_append t [] else p
+  | [] => p
+  end.
+
+(** the pieces between "\n"s: all but the last were terminated *)
+Fixpoint lines_of_pieces (ps : list bytes) : list bytes :=
+  match ps with
+  | [] => []
+  | [last] => match last with [] => [] | _ => [last] end
+  | p :: r => strip_cr p :: lines_of_pieces r
+  end.
+
+(** [BufRead::lines] on the content of a file *)
+Definition split_lines (content : bytes) : list bytes := lines_of_pieces (split_on 10 content).
+
+(** the reader's view of a file whose raw lines are classified by [cls] *)
+Definition file_lines (cls : bytes -> line) (content : bytes) : list line := map cls (split_lines content).
+
+(** [WalRecovery::replay_log_file]: the entries WAL replay restores from the lines of one file, in
+    order — a line that is not UTF-8, blank or not a WalEntry is skipped and replay goes on.
+    (Replay aborts at an entry whose context id or event type is blank; not modelled, the archive keeps
+    such an entry.) *)
+Fixpoint replay_entries (ls : list line) : list entry :=
+  match ls with
+  | [] => []
+  | LEntry j :: r => entry_of_json j :: replay_entries r
+  | _ :: r => replay_entries r
+  end.
+
+(** the order in which [MemTable::iter] returns replayed events: by context id, insertion order within *)
+Definition ctx_leb (a b : entry) : bool :=
+  match bytes_cmp (e_ctx a) (e_ctx b) with Gt => false | _ => true end.
+Definition memtable_order (es : list entry) : list entry := isort_by ctx_leb es.
